@@ -197,3 +197,29 @@ def install_valid_date_contract(I):
                         outs.append((s2, rv))
         return outs
     I.contracts[D2D] = contract
+
+
+def install_splitter_contract(I):
+    """client-side contract of the two day/nanosecond splitters, *proved* by check C04 (rule C04-K) on every run:
+    Ok((d, n)) with 86_400e9*d + n == x and 0 <= n < 86_400e9, i.e. (d, n) are the Euclidean quotient and remainder of x;
+    the Err disjuncts (with their OutOfRange construction) are taken from the real body."""
+    from .models import ok
+
+    def make(fn, scale):
+        def contract(I, st, args, dty, site):
+            x = args[0]
+            if x[0] != 'i':
+                return None
+            outs = [(s, rv) for (s, rv) in I.call_body(st, fn, args, site) if not (rv[0] == 'e' and set(rv[2]) == {0})]
+            s1 = st.clone()
+            xv = x[1]
+            if scale != 1:
+                sv = I.binop(s1, 'Mul', ('i', xv, 'i128'), ('i', D.const_vid(scale), 'i128'), {'k': 'int', 's': True, 'bits': 128, 'name': 'i128'}, None, None)
+                xv = sv[1]
+            q, r = D.divmod_euclid(s1, xv, NPD, force=True)
+            if D.set_iv(s1, q, -(1 << 31), (1 << 31) - 1) and not s1.dead:
+                outs.append((s1, ok(('t', (('i', q, 'i32'), ('i', r, 'u64'))))))
+            return outs
+        return contract
+    I.contracts['util::time::convert::nanos_to_days_nanos'] = make('util::time::convert::nanos_to_days_nanos', 1)
+    I.contracts['util::time::convert::secs_to_days_nanos'] = make('util::time::convert::secs_to_days_nanos', 10**9)
